@@ -28,7 +28,9 @@ func (t token) isOp(op string) bool { return t.k == tOp && t.s == op }
 var multiOps = []string{"->>", "#>>", "||", "::", "->", "#>", "@>", "<@", "@@", "?|", "?&", "<=", ">=", "<>", "!=", ":=", "..", "=>", "!~", "~*"}
 
 func lex(src string) ([]token, error) {
-	var toks []token
+	// pre-sized: growing by doubling turns every long statement into several
+	// large-object allocations (mheap lock contention under parallel checks)
+	toks := make([]token, 0, len(src)/4+16)
 	i := 0
 	n := len(src)
 	for i < n {
@@ -294,6 +296,35 @@ func hexVal(c byte) int {
 
 // splitStatements splits a multi-statement string at top-level semicolons.
 func splitStatements(toks []token) [][]token {
+	// fast path: a single statement without top-level ';' is returned as is (with its
+	// EOF token, which parseStatement expects) instead of being copied
+	if n := len(toks); n > 1 && toks[n-1].k == tEOF {
+		single, d := true, 0
+		for _, t := range toks[:n-1] {
+			if t.k == tEOF {
+				single = false
+				break
+			}
+			if t.k == tOp {
+				switch t.s {
+				case "(", "[":
+					d++
+				case ")", "]":
+					d--
+				case ";":
+					if d == 0 {
+						single = false
+					}
+				}
+			}
+			if !single {
+				break
+			}
+		}
+		if single {
+			return [][]token{toks}
+		}
+	}
 	var out [][]token
 	var cur []token
 	depth := 0
